@@ -227,8 +227,25 @@ type MechEvent struct {
 	D    int    `json:"d"`
 }
 
+// firstEpochLen: bytes written before the first Reset.
+func firstEpochLen(ops []Op) (n int) {
+	for _, o := range ops {
+		if o.Op == "R" || o.Op == "S" {
+			break
+		}
+		if o.Op == "W" {
+			n += o.N
+		}
+	}
+	return n
+}
+
 func epochData(d DataSpec, ep int) DataSpec {
 	d.Seed += int64(ep) * 1000003
+	if d.Pre != "" && ep == 0 {
+		d.Class = d.Pre
+	}
+	d.Pre = ""
 	return d
 }
 
@@ -473,7 +490,9 @@ func execWriterCase(c *WCase, arch int, emit func(interface{})) {
 		return
 	}
 	period := 0
-	if c.Data.Class == "period" {
+	if c.Data.Class == "period" && (c.Data.Pre == "" || firstEpochLen(c.Ops) < 65536) {
+		// (with Pre the first epoch is not periodic: the C20.repeats clause, which judges streams of
+		// 64 KiB and more, may apply to the case only if the first epoch is shorter)
 		period = c.Data.Period
 	}
 	if c.Data.Class == "lowperiod" {
